@@ -254,6 +254,21 @@ impl WorkerDriver {
     pub fn counter_raw(&self) -> usize {
         self.fut.counter.inner.1.counter.load(std::sync::atomic::Ordering::SeqCst)
     }
+
+    /// a read-only view of the shared counter that stays valid while the worker is being polled
+    pub fn counter_view(&self) -> CounterView {
+        CounterView(self.fut.counter.inner.1.clone())
+    }
+}
+
+/// Read-only view of a worker's shared connection counter.
+pub struct CounterView(Counter);
+
+impl CounterView {
+    /// raw value (biased by one)
+    pub fn raw(&self) -> usize {
+        self.0.counter.load(std::sync::atomic::Ordering::SeqCst)
+    }
 }
 
 // ------------------------------------------------------------------------------------------------
